@@ -98,6 +98,11 @@ def tamper(sess, suite, shares, pkp, key):
         expect_reject(mk_ss(f["id"], f["share"], c), "coefficient")
     # truncation / extension
     expect_reject(mk_ss(f["id"], f["share"], f["comm"][:-1]), "truncate", accept_ok=None)
+    # every shorter prefix, down to NO coefficients at all: refused with an error (never a panic), the exact outcome is the model's
+    for ln in range(0, t - 1):
+        r = expect_reject(mk_ss(f["id"], f["share"], f["comm"][:ln]), "truncate-to-%d" % ln if ln == 0 else "truncate-more", accept_ok=None)
+        if ln == 0 and fld.dec(f["share"]) != 0:
+            sess.oracle(r.kind == "err", "a share whose commitment was truncated to zero coefficients was not refused with an error (%s)" % r.raw[:80], [sess.records[-1][0]])
     expect_reject(mk_ss(f["id"], f["share"], f["comm"] + [rng.choice(f["comm"])]), "extend")
 
 
